@@ -447,7 +447,7 @@ func (w *world) outputs(h *keyset.Handle, mat *tinkpb.Keyset, g *gen) {
 			ad = w.rng.Bytes(1 + w.rng.Intn(40))
 		}
 		useWrite := len(ad) == 0 && w.rng.Bool() // h.Write == WriteWithAssociatedData(…, []byte{})
-		useCtx := !useWrite && w.rng.Chance(35)    // WriteWithContext / ReadWithContext (separate encrypt/decrypt code)
+		useCtx := !useWrite && w.rng.Chance(35)  // WriteWithContext / ReadWithContext (separate encrypt/decrypt code)
 		for _, wn := range []string{"BinaryWriter", "JSONWriter", "MemReaderWriter"} {
 			var buf bytes.Buffer
 			mem := &keyset.MemReaderWriter{}
@@ -656,7 +656,7 @@ func indexOf(ks []kek, name string) int {
 func (w *world) run() {
 	o := w.o
 	// (a) one public/remote keyset per size with one secret key at each position (and none)
-	for rep, reps := 0, hlib.N(45, 900); rep < reps; rep++ {
+	for rep, reps := 0, hlib.N(110, 2200); rep < reps; rep++ {
 		n := 1 + w.rng.Intn(6)
 		base := &tinkpb.Keyset{}
 		for i := 0; i < n; i++ {
